@@ -14,6 +14,7 @@ PROGRAMS = [
     "stack_and_reshape", "broadcast_to_dims", "dim_diff", "squeeze_unsqueeze",
     "floordiv_both_orders", "mod_both_orders", "dim_square_plus_twice", "dim_poly_mix", "reshape_swap_elementwise",
     "reshape_swap_reduce", "sub_both_orders", "three_dims_mix",
+    "m_reshape_product", "m_reshape_swap_relu", "m_reshape_swap_reduce", "m_flatten_back", "m_reshape_split_merge",
 ]
 
 
@@ -104,14 +105,27 @@ def build(name: str):
     if name == "dim_poly_mix":
         return (lambda x: x + (3 * x.shape[0] + x.shape[0] * x.shape[1] + x.shape[1] * x.shape[1] + 2 * x.shape[1])), [BN]
     if name == "reshape_swap_elementwise":
-        return (lambda x: jnp.reshape(jnp.tanh(jnp.reshape(x, (x.shape[0] * x.shape[1],)) * 0.0) + jnp.reshape(x, (x.shape[0] * x.shape[1],)),
-                                      (x.shape[1], x.shape[0]))), [BN]
+        import jax
+        return (lambda x: jnp.reshape(jax.nn.relu(jnp.reshape(x, (x.shape[0] * x.shape[1],))), (x.shape[1], x.shape[0]))), [BN]
     if name == "reshape_swap_reduce":
         return (lambda x: jnp.sum(jnp.reshape(jnp.maximum(jnp.reshape(x, (-1,)), -1.0), (x.shape[1], x.shape[0])), axis=0)), [BN]
     if name == "sub_both_orders":
         return (lambda x: x * (x.shape[0] - x.shape[1]) + (x.shape[1] - x.shape[0]) * 2), [BN]
     if name == "three_dims_mix":
         return (lambda a, b: a @ b + (a.shape[0] * 100 + a.shape[1] * 10 + b.shape[1])), [BN, ("N", "M")]
+    # array-method reshapes take a different lowering path than the substituted jnp.reshape
+    if name == "m_reshape_product":
+        return (lambda x: x.reshape(x.shape[0] * x.shape[1]) * 2.0), [BN]
+    if name == "m_reshape_swap_relu":
+        import jax
+        return (lambda x: jax.nn.relu(x.reshape(x.shape[0] * x.shape[1])).reshape(x.shape[1], x.shape[0])), [BN]
+    if name == "m_reshape_swap_reduce":
+        import jax
+        return (lambda x: jax.nn.relu(x.reshape(-1)).reshape(x.shape[1], x.shape[0]).sum(axis=0)), [BN]
+    if name == "m_flatten_back":
+        return (lambda x: (x.reshape(-1) + 1.0).reshape(x.shape[0], x.shape[1])), [BN]
+    if name == "m_reshape_split_merge":
+        return (lambda x: x.reshape(x.shape[0], 2, 3).sum(axis=1)), [("B", 6)]
     raise ValueError(name)
 
 
